@@ -221,6 +221,8 @@ class ExprMixin:
         c = self.const_value(st, n.id)
         if c is not None:
             return [Res(st, c)]
+        if not self.spec_depth and self.depth == 0 and n.id in getattr(self, "fn_locals", ()):
+            return [Res(st, None, "raise", "UnboundLocalError")]      # a local of the function read before any binding
         raise Unsupported(f"unknown name {n.id} at line {getattr(n, 'lineno', '?')}")
 
     def ev_Attribute(self, st, n):
@@ -439,7 +441,15 @@ class ExprMixin:
         """z3 Bool for Python a == b (value semantics for scalars/paths, identity for objects without __eq__)"""
         ta, tb = base_type(a.ty), base_type(b.ty)
         if ta in ("list", "tuple") and tb in ("list", "tuple"):
-            return self.elems(st, a) == self.elems(st, b)   # element-wise Val equality (exact for scalar/enum elements)
+            if self.spec_depth:
+                return self.elems(st, a) == self.elems(st, b)
+            # Python compares lists element by element with ==, which is coarser than identity of values (1 == 1.0 == True,
+            # objects with __eq__): identical sequences are equal, equal lists have the same length - nothing more is assumed
+            le = z3.Function("py_list_equal", SeqV, SeqV, z3.BoolSort())
+            sa, sb = self.elems(st, a), self.elems(st, b)
+            st.assume(z3.Implies(sa == sb, le(sa, sb)))
+            st.assume(z3.Implies(le(sa, sb), z3.Length(sa) == z3.Length(sb)))
+            return le(sa, sb)
         for t in (ta, tb):
             if t in self.reg.classes and self.reg.lookup(t, "__eq__", self.functions):
                 raise Unsupported(f"== on class {t} with __eq__ (line {lineno})")
@@ -452,6 +462,11 @@ class ExprMixin:
             pe = z3.Function("py_equal", Val, Val, z3.BoolSort())
             st.assume(z3.Implies(a.t == b.t, pe(a.t, b.t)))
             return pe(a.t, b.t)
+        if ta in ("int", "float", "bool") or tb in ("int", "float", "bool"):
+            # numbers compare by value across int / float / bool (1 == 1.0 == True)
+            def isnum(v): return z3.Or(Val.is_IntV(v.t), Val.is_FloatV(v.t), Val.is_BoolV(v.t))
+            def num(v): return z3.If(Val.is_FloatV(v.t), vf(v.t), z3.If(Val.is_BoolV(v.t), z3.If(vb(v.t), z3.RealVal(1), z3.RealVal(0)), z3.ToReal(vi(v.t))))
+            return z3.If(z3.And(isnum(a), isnum(b)), num(a) == num(b), a.t == b.t)
         return a.t == b.t
 
     def ev_Compare(self, st, n):
@@ -713,7 +728,11 @@ class ExprMixin:
             return self.comp_as_loop(st, n, "set")
 
     def ev_GeneratorExp(self, st, n):
-        return self.comprehension(st, n, "list")
+        # (a generator expression is consumed at once by its only user in the verified code: list semantics)
+        try:
+            return self.comprehension(st.copy(), n, "list")
+        except Unsupported:
+            return self.comp_as_loop(st, n, "list")
 
     def comprehension(self, st, n, kind):
         """[f(x) for x in xs if c(x)] with pure f, c: result is a fresh list constrained pointwise when
